@@ -1,5 +1,6 @@
 import PyrollModel.Gen.C08
 import PyrollModel.Gen.C08Geom
+import PyrollModel.Gen.C08Cache
 import PyrollModel.OutCSDriver
 /-- `lake env lean --run Drivers/c08.lean` : line-protocol driver of the outgoing-cross-section model (C08):
     the generated programs run under the vertex-list interpretation, and the generated formula table. -/
@@ -10,4 +11,8 @@ def main : IO Unit :=
               ("two_tip_cs", Gen.C08.two_tip_cs), ("three_tip_cs", Gen.C08.three_tip_cs),
               ("from_groove_wg", Gen.C08.from_groove_wg), ("from_groove_fg", Gen.C08.from_groove_fg),
               ("from_groove_wh", Gen.C08.from_groove_wh), ("from_groove_fh", Gen.C08.from_groove_fh)],
-    table := Gen.C08.table }
+    table := Gen.C08.table,
+    caches := [("two", { memo := Gen.C08.two_memo, chain := Gen.C08.two_reevaluate.map Prod.snd, loop := Gen.C08.solve_loop,
+                         init := Gen.C08.init_solve_ops }),
+               ("three", { memo := Gen.C08.three_memo, chain := Gen.C08.three_reevaluate.map Prod.snd, loop := Gen.C08.solve_loop,
+                           init := Gen.C08.init_solve_ops })] }
